@@ -187,7 +187,7 @@ PROPS = {
                       {"scn": "pool", "filter": "iso", "race": True, "n": {"quick": 30, "thorough": 300}, "aspects": ["race"]},
                       {"scn": "pool", "filter": "mgmt", "race": True, "n": {"quick": 30, "thorough": 300}, "aspects": ["race"]},
                       {"scn": "pool", "filter": "churn", "race": True, "n": {"quick": 40, "thorough": 400}, "aspects": ["race", "crash"]},
-                      {"scn": "orch", "race": True, "n": {"quick": 120, "thorough": 1500}, "aspects": ["race"]},
+                      {"scn": "orch", "race": True, "env": {"VERIF_NOGATE": "1"}, "n": {"quick": 250, "thorough": 3000}, "aspects": ["race"]},
                       {"scn": "eval", "filter": "conc", "race": True, "n": {"quick": 60, "thorough": 600}, "aspects": ["race"]},
                       {"scn": "eval", "filter": "locals", "race": True, "n": {"quick": 40, "thorough": 400}, "aspects": ["race"]}],
         "rule": "the concurrency scenarios of C05-C07, C13, C15, C17, C18 (pool requests from many goroutines with updates from other goroutines and from inside rules, management sequences, all 21 engine execution methods under the gate scheduler, conc blocks, concurrent executions of one rule entity) run with the Go race detector; a report counts when the innermost non-runtime frame of an access is in gengine's source (accesses made through reflect to user data are the rules' own); non-trivial = a scenario case ran",
